@@ -141,5 +141,14 @@ pub assume_specification [std::cmp::Ordering::is_ne] (o: Ordering) -> (r: bool) 
 //@use arithwords.fns ::load#w_negative_q
 //@use arithwords.fns ::load#w_popcnt
 
+// small State getters a changed body may start to use (assumed renderings of verified contracts; unit state proves them)
+impl State {
+//@use state.fns State::data_depth assumed
+//@use state.fns State::get_var assumed
+//@use state.fns State::is_running assumed
+//@use state.fns State::ip assumed
+//@use state.fns State::is_recording assumed
+}
+
 } // verus!
 fn main() {}
